@@ -28,7 +28,8 @@ BOUNDS = {'quick': 'file names up to 7 characters over the full character set; w
           'thorough': 'file names up to 10 characters (8 with the soundfile type set: longer bounds time out in z3\'s string solver)'}
 OUTSIDE = ['the container libraries themselves (central round-trip clause not claimed)', '8-bit soundfile subtypes (not among the containers the property lists)',
            'scipy wav backend (scipy is not installed: read_signal falls back to the stdlib wave reader, which is what is analysed)']
-ASSUMPTIONS = ['the regular expression the code uses is translated from Python\'s own parse tree (subset: literals, classes, \\w \\d \\s over ASCII, groups, alternation, * + ? {m,n}, leading ^); names are ASCII',
+ASSUMPTIONS = ['`x in collection` / `not in` of the inference code are rewritten (AST, loaded copy) to a helper that compares a symbolic string with every member (Python would go through hash())',
+               'the regular expression the code uses is translated from Python\'s own parse tree (subset: literals, classes, \\w \\d \\s over ASCII, groups, alternation, * + ? {m,n}, leading ^); names are ASCII',
                'stub contracts of wave.open / np.load / h5py.File / soundfile.SoundFile / torch.load as documented by those libraries',
                'np.frombuffer(readframes(n)) yields n*channels samples in file order']
 CONFIG_TIME_LIMIT = {'quick': 900, 'thorough': 3000}
